@@ -42,6 +42,7 @@ PROGRAMS = [
     "{% case a %}{% when b %}W{% when 1 %}1{% else %}E{% endcase %}{{ a if b else 'z' }}{{ 'q' if o.k }}",
     "{{ 'abc' | slice: a }}|{{ 'abcdef' | truncate: b }}|{{ l | join: a }}|{{ a | at_least: b }}",
     "{% for i in (1..a) %}{{ i }}{% endfor %}{% for i in l limit: b %}{{ i }}{% endfor %}{% cycle a, b %}{% echo o.k %}",
+    "{% assign z = nil %}{{ z }}{% if z %}Z{% endif %}{% for i in l %}[{{ i }}{% if i %}T{% endif %}]{% endfor %}{{ a }}{{ b | default: 'd' }}{% assign y = a %}{{ y }}",
     "{% if a == nil %}N{% endif %}{% if a == b %}EQ{% endif %}{% if l contains a %}C{% endif %}{% if a < 1 or b %}LT{% endif %}",
 ]
 TEMPLATES = [[e.from_string(s) for s in PROGRAMS] for e in ENVS]
@@ -55,14 +56,16 @@ for _row in TEMPLATES:
 
 def _data(pa: bool, pb: bool, pl: bool, po: bool, pk: bool, va: int, vb: int) -> dict:
     d: dict = {}
+    a = None if va == 3 else va  # a name bound to nil exists: it is not "missing"
+    b = None if vb == 3 else vb
     if pa:
-        d["a"] = va
+        d["a"] = a
     if pb:
-        d["b"] = vb
+        d["b"] = b
     if pl:
-        d["l"] = [vb, va]
+        d["l"] = [b, a]
     if po:
-        d["o"] = {"k": va} if pk else {}
+        d["o"] = {"k": a} if pk else {}
     return d
 
 
@@ -76,11 +79,11 @@ def _run(policy: int, i: int, data: dict):
 
 
 @cond(
-    pre=["0 <= va <= 2", "0 <= vb <= 2"],
+    pre=["0 <= va <= 3", "0 <= vb <= 3"],
     timeout=240,
     shard={"i": list(range(len(PROGRAMS)))},
     covers="(a) a strict or falsy-strict render that succeeds prints exactly what the default policy prints; (b) a strict UndefinedError implies the default run created an undefined (something missing was used); (c) the default policy never raises UndefinedError; with everything present no policy raises UndefinedError",
-    bounds="12 programs (output, default filter, conditions, loops, filter arguments, lambdas, partial arguments, path segments, assign/capture, case/ternary, ranges/cycle/echo, comparisons); 5 presence bits (a, b, l, o, o.k); values 0..2",
+    bounds="13 programs (output, default filter, conditions, loops, filter arguments, lambdas, partial arguments, path segments, assign/capture, case/ternary, ranges/cycle/echo, comparisons); 5 presence bits (a, b, l, o, o.k); values 0..2 or nil (a variable bound to nil exists)",
     stubs=(STUB_STRICT_INIT,),
     grid=lambda: [(i, pa, pb, True, po, pk, 1, 2) for i in range(len(PROGRAMS)) for pa in (False, True) for pb in (False, True) for po in (False, True) for pk in (False, True)],
 )
@@ -103,6 +106,34 @@ def d_refine(i: int, pa: bool, pb: bool, pl: bool, po: bool, pk: bool, va: int, 
             if default[0] == "ok" and created == 0:
                 return False
     return True
+
+
+@cond(
+    pre=["0 <= va <= 3", "0 <= vb <= 3"],
+    timeout=240,
+    shard={"i": list(range(len(PROGRAMS)))},
+    covers="with every referenced variable and property present (possibly bound to nil), no undefined policy raises UndefinedError and all three policies print the same",
+    bounds="13 programs; values 0..2 or nil",
+    stubs=(STUB_STRICT_INIT,),
+    grid=lambda: [(i, va, vb) for i in range(len(PROGRAMS)) for va in range(4) for vb in (0, 3)],
+)
+def d_all_present(i: int, va: int, vb: int) -> bool:
+    outs = [_run(p, i, _data(True, True, True, True, True, va, vb)) for p in range(3)]
+    if any(o[0] == "undefined" for o in outs):
+        # legitimate only for programs that reference something below a present value (o.k.z, o[b].c):
+        # FULLY_PRESENT programs (decided with non-nil data at import) reference nothing that is missing,
+        # and binding a name to nil does not make it missing
+        return i not in FULLY_PRESENT
+    return outs[0] == outs[1] == outs[2]
+
+
+def _creations(i: int) -> int:
+    CREATED[0] = 0
+    _run(0, i, _data(True, True, True, True, True, 1, 1))
+    return CREATED[0]
+
+
+FULLY_PRESENT = {i for i in range(len(PROGRAMS)) if _creations(i) == 0}
 
 
 @cond(pre=["0 <= va <= 2"], twin=True, timeout=60, covers="reachability twin: strict does raise for a missing variable")
